@@ -115,12 +115,22 @@ Proof.
 Qed.
 
 (* the same with LIMIT / OFFSET on the statement *)
+Lemma in_firstn : forall (A : Type) n (l : list A) x, In x (firstn n l) -> In x l.
+Proof.
+  intros A n. induction n as [|n IH]; intros l x H; [destruct H|]. destruct l as [|y l]; [destruct H|].
+  cbn [firstn] in H. destruct H as [H|H]; [left; exact H | right; exact (IH _ _ H)].
+Qed.
+Lemma in_skipn : forall (A : Type) n (l : list A) x, In x (skipn n l) -> In x l.
+Proof.
+  intros A n. induction n as [|n IH]; intros l x H; [exact H|]. destruct l as [|y l]; [destruct H|].
+  cbn [skipn] in H. right. exact (IH _ _ H).
+Qed.
 Lemma slice_forall : forall (A : Type) (P : A -> Prop) off lim (l : list A), Forall P l -> Forall P (slice off lim l).
 Proof.
   intros A P off lim l H. rewrite Forall_forall in *. unfold slice.
   destruct lim as [n|]; intros x Hx.
-  - apply firstn_In in Hx. apply H. revert Hx. apply (In_skipn).
-  - apply H. revert Hx. apply In_skipn.
+  - apply in_firstn in Hx. apply in_skipn in Hx. exact (H x Hx).
+  - apply in_skipn in Hx. exact (H x Hx).
 Qed.
 
 Theorem orm_rows_biject_core_rows_sl : forall d q off lim,
@@ -137,13 +147,6 @@ Theorem count_exists_agree_sl : forall d q off lim,
 Proof.
   intros. unfold orm_count_sl, orm_exists_sl, orm_exec_sl. rewrite assemble_length.
   split; [reflexivity|]. destruct (slice off lim (core_exec d (orm_to_core d q))); reflexivity.
-Qed.
-
-Theorem legacy_rows_le_count_sl : forall d q off lim,
-  length (orm_exec_sl d q off lim true) <= orm_count_sl d q off lim.
-Proof.
-  intros. destruct (count_exists_agree_sl d q off lim) as [Hc _]. rewrite Hc.
-  unfold orm_exec_sl. apply unique_items_length.
 Qed.
 
 (* legacy Query: Result.unique() drops repeated rows; harmless exactly when there is nothing to drop *)
@@ -182,6 +185,13 @@ Theorem legacy_rows_le_count : forall d q, length (orm_exec d q true) <= orm_cou
 Proof.
   intros d q. destruct (count_exists_agree d q) as [Hc _]. rewrite Hc.
   unfold orm_exec. apply unique_items_length.
+Qed.
+
+Theorem legacy_rows_le_count_sl : forall d q off lim,
+  length (orm_exec_sl d q off lim true) <= orm_count_sl d q off lim.
+Proof.
+  intros. destruct (count_exists_agree_sl d q off lim) as [Hc _]. rewrite Hc.
+  unfold orm_exec_sl. apply unique_items_length.
 Qed.
 
 (* ---------- the identity map: one object per (identity class, primary key) ---------- *)
